@@ -1400,6 +1400,20 @@ def targeted_cases(rng, n: int):
                        "outputs": [["y", "F2"]], "extra_opsets": rng.choice([[], [["com.unused", 2]], [["ai.onnx.ml", 3], ["com.unused", 2]]])},
                       rng.choice([["rmopset"], ["rmopset", "inline"], ["inline", "rmopset"], ["rmfunc", "rmopset"], ["rmopset", "rmopset"]]),
                       rng.randrange(1 << 30)))
+        # (h) attribute parameters whose declared default is "falsy" (0.0, -0.0, 0) and which the call site does not pass
+        dflt = rng.choice([["f", 0.0], ["f", -0.0], ["f", 0.0], ["f", 2.0]])
+        fh = {"name": "Fh", "dom": "local", "ins": ["a"], "outs": ["r"], "attrs": [], "defaults": {"alpha": dflt, "beta": ["f", rng.choice([0.0, 1.0])]},
+              "nodes": [N("Constant", [], ["ca"], value_float=["ref", [1, "alpha"]]), N("Constant", [], ["cb"], value_float=["ref", [1, "beta"]]),
+                        N("Add", ["a", "ca"], ["s0"]), N("Mul", ["s0", "cb"], ["s1"]), N("Sub", ["s1", "ca"], ["r"])]}
+        # (every call passes some attribute: the reference evaluator rejects linked attributes when the call has none at all)
+        hn = [N("Fh", ["x0"], ["h0"], dom="local", beta=["f", rng.choice([1.0, 2.0])]),
+              N("Fh", ["h0"], ["h1"], dom="local", beta=["f", rng.choice([0.0, 3.0])])]
+        if rng.random() < 0.5:
+            hn.append(N("Fh", ["h1"], ["h2"], dom="local", alpha=["f", rng.choice([0.0, 5.0])]))
+        # (judge = onnxruntime: the reference evaluator does not apply declared defaults of attribute parameters)
+        cases.append(({"opset": 18, "inputs": [["x0", "F2"]], "inits": [], "functions": [fh], "nodes": hn, "judge": "ort",
+                       "outputs": [[hn[-1]["outs"][0], "F2"], ["h0", "F2"]]},
+                      rng.choice([["inline"], ["inline", "cse"], ["inline", "liftall"], ["rmfunc", "inline"]]), rng.randrange(1 << 30)))
     return cases
 
 
